@@ -13,6 +13,12 @@ CLAIMED = {
         note='Trusts clang 14 (initialiser layout, -O1 IR), the reference arithmetic in tools/gf2.py and the Intel SDM bit order of GF2P8AFFINEQB.'),
 }
 
+CLAIMED['C16'] = dict(
+    category='proof', design_ref='DESIGN.md section 3, C16',
+    technique='static analysis: path-sensitive guard-fact dataflow over the assembled dispatch resolvers (all paths enumerated) x per-symbol ISA-class closure over the asm CFG + LLVM-IR call graph',
+    text='Selection clause only. For all 42 multibinary entry points, in the AS_FEATURE_LEVEL 10/6/4 builds, every path through the real resolver code is enumerated from the assembled object; the CPUID/XCR0 facts known set on the path must imply (under an explicit, printed dependency relation) the ISA class of every instruction reachable from the symbol the path stores into the dispatch slot - through C wrappers into asm kernels; xgetbv is only executed after OSXSAVE was seen; the no-feature path selects baseline code. The obligation set (paths x reachable instructions) is finite and enumerated completely. That all variants compute the same results is NOT decided here. Known finding: BMI2 instructions behind AVX2/AVX-512-only tests (13 entry/symbol pairs, listed in known_findings.json).',
+    note='Trusts nasm/objdump decoding, the hand-written fail-closed ISA table tools/isa.py, the dependency relation in props/c16.py, and clang IR for the C call graph / target-features. CPUID max-leaf validity is outside the examined bits.')
+
 NOT_APPLICABLE = {
     'C07': 'quantifies over call histories and buffer schedules; resumption correctness depends on run-time counts carried in state, no structural clause beyond the state-enum mirror already checked under C01',
     'C09': 'algebraic property of run-time matrices (invertibility, products over GF(2^8)); nothing in the shape of the code decides it, and loop summarisation over symbolic (m,k) is out of reach of the analyses used',
